@@ -222,9 +222,41 @@ pub fn compare_outcome(r: &RefOutcome, o: &Outcome, cfg: &DiffCfg) -> DiffVerdic
     }
 }
 
+/// a variable declared by `var`, `for` or `catch` somewhere in the text (the `k`-th of them)
+fn respell_candidate(source: &str, k: usize) -> Option<String> {
+    let mut names: Vec<&str> = Vec::new();
+    let toks: Vec<&str> = source.split(|c: char| !(c.is_alphanumeric() || c == '_')).filter(|t| !t.is_empty()).collect();
+    for w in toks.windows(2) {
+        if (w[0] == "var" || w[0] == "for" || w[0] == "catch") && w[1].chars().next().map(|c| c.is_alphabetic()).unwrap_or(false) && w[1].chars().any(|c| c.is_ascii_digit()) && !names.contains(&w[1]) {
+            names.push(w[1]);
+        }
+    }
+    if names.is_empty() {
+        None
+    } else {
+        Some(names[k % names.len()].to_string())
+    }
+}
+
 pub fn run_diff(p: &Program, noise: &[u8], cfg: &DiffCfg, rcfg: &RefCfg) -> DiffResult {
     crate::astutil::fix_lambda_names(p);
-    let (source, modules) = render_program(p, noise);
+    let (mut source, modules) = render_program(p, noise);
+    // One single-module program in six is written out with one of its variables spelled unusually
+    // (`_`, a name that begins like a keyword, ...): which variable and which spelling is a function of
+    // the program text. The program itself is unchanged - the reference interpreter runs the AST - so
+    // only the scanner and the compiler's name resolution see the difference.
+    if p.modules.is_empty() {
+        let h = crate::rd::fnv64(source.as_bytes());
+        if h % 6 == 0 {
+            if let Some(name) = respell_candidate(&source, (h >> 8) as usize) {
+                const SPELLINGS: &[&str] = &["_", "__", "_0", "selfish", "nilly", "superb", "Selfie", "fnord", "inn", "trye", "variable", "iffy", "e1e5"];
+                let to = SPELLINGS[((h >> 24) as usize) % SPELLINGS.len()];
+                crate::pretty::RESPELL.with(|r| *r.borrow_mut() = Some((name, to.to_string())));
+                source = render_program(p, noise).0;
+                crate::pretty::RESPELL.with(|r| *r.borrow_mut() = None);
+            }
+        }
+    }
     let r = run_program(p, rcfg);
     if let RefEnd::Discard(w) = &r.end {
         return DiffResult {
